@@ -10,7 +10,7 @@ Import ListNotations.
 (* what denote_file says about the only cell of a one-library, one-cell document *)
 Lemma denote_one_cell d n e nd ver lvl km items largs lnd lrest cargs cnd ct crest vargs L C :
   d = SList (e :: nd :: ver :: lvl :: km :: items) ->
-  lib_items (upto_design items) = [largs] -> largs = lnd :: lrest ->
+  lib_items items = [largs] -> largs = lnd :: lrest ->
   sel "cell" lrest = [cargs] -> cargs = cnd :: ct :: crest -> view_args crest = Some vargs ->
   nf_libs n = [L] -> li_cells L = [C] ->
   denote_file d n ->
@@ -58,7 +58,7 @@ Proof. vm_compute. reflexivity. Qed.
 (* the same document as text *)
 Example dup_doc_text :
   read_first (tokenize (s2l "(edif n (edifVersion 2 0 0) (edifLevel 0) (keywordMap (keywordLevel 0)) (library w (edifLevel 0) (technology (numberDefinition)) (cell t (cellType GENERIC) (view v (viewType NETLIST) (interface (port a) (port b) (port c)) (contents (net (rename x_0_ ""x[0]"") (joined (portRef a))) (net (rename x_1_ ""x[1]"") (joined (portRef b))) (net (rename x_0_ ""x[0]"") (joined (portRef c))))))))"))
-  = Some (dup_doc, O).
+  = Some (dup_doc, O, []).
 Proof. vm_compute. reflexivity. Qed.
 
 Lemma w_net_names F ports insts ident name port nt : denote_net F ports insts (w_net ident name port) nt ->
